@@ -429,6 +429,10 @@ func intentHtlcUnlock(h *Hist) bool {
 		return false
 	}
 	s := h.Htlcs[c.Pick("hu.idx", len(h.Htlcs))]
+	if c.Weighted("hu.recent", 1, 2) == 1 {
+		// the newest ones are the ones still locked and not expired
+		s = h.Htlcs[len(h.Htlcs)-1-c.Int("hu.recentIdx", 0, min(2, len(h.Htlcs)-1))]
+	}
 	from := s.Locked
 	if c.Weighted("hu.byOther", 3, 1) == 1 || h.W.Keys.ByAddr[from] == nil {
 		from = h.user("hu.from")
